@@ -161,6 +161,7 @@ def rich_table(zombie=False, btime=1_700_000_000, kthread=False):
         p.exe = None
         p.cmdline = b""
         p.environ = b""
+        p.no_mm = True              # open("/proc/PID/environ") -> ESRCH, as this sandbox's kernel answers for PID 2
         p.smaps = b""
         p.smaps_rollup = _errno.ESRCH
         p.fds = {}
